@@ -208,7 +208,22 @@ class World:
         apply_factors(spec, self.parset)
         self.progset, self.instr = build_progset(spec, self.F, self.D) if with_progs else (None, None)
 
+    def scenario_parset(self):
+        """parset with the spec's parameter scenario(s) applied (one ParameterScenario per interpolation method)"""
+        ps = self.parset
+        by = {}
+        for sc_ in self.spec.get("scen", []):
+            by.setdefault(sc_.get("interp", "linear"), []).append(sc_)
+        for interp, lst in by.items():
+            scen = at.ParameterScenario(name="scen", interpolation=interp)
+            for sc_ in lst:
+                scen.add(sc_["par"], sc_["pop"] if "pop2" not in sc_ else (sc_["pop"], sc_["pop2"]), list(sc_["t"]), list(sc_["y"]))
+            ps = scen.get_parset(ps, self.P)
+        return ps
+
     def run(self, progs=True, parset=None):
+        if parset is None and self.spec.get("scen"):
+            parset = self.scenario_parset()
         ps, ins = (self.progset, self.instr) if progs else (None, None)
         return self.P.run_sim(parset or self.parset, ps, ins, store_results=False)
 
